@@ -61,22 +61,19 @@ def run(ctx):
     # ---------------- D1 pack
     POLICY = ("private-except", frozenset([LEN_PARSER["name"]]))
     pb = ctx.region(None, policy=POLICY, key=pack["key"], ps=True)
-    args = []
-    for i, t in pb.calls():
-        if (callee_name(t) or "").startswith("core::fmt::rt::Argument::new_"):
-            args.append(pb.trace(t["args"][0]))
-    kinds = set()
-    prefix_const = sep_const = None
-    for lv in args:
+    consts = {"prefix": None, "sep": None}
+
+    def classify(lv):
+        kinds = set()
         for lf in lv:
             if lf.kind == "const":
                 s_ = lf.data.get("str")
                 if s_ is not None and s_.strip() == "" and len(s_) == 1:
                     kinds.add("separator")
-                    sep_const = s_
+                    consts["sep"] = s_
                 else:
                     kinds.add("prefix")
-                    prefix_const = s_
+                    consts["prefix"] = s_
             elif lf.kind == "call" and callee_name(lf.data[1]) == "std::string::String::len" and root_ids(pb, lf.data[1]["args"][0]) == frozenset([("param", 1, ())]):
                 kinds.add("len(type)")
             elif lf.kind == "call" and callee_name(lf.data[1]) == "core::slice::len" and root_ids(pb, lf.data[1]["args"][0]) == frozenset([("param", 2, ())]):
@@ -85,10 +82,40 @@ def run(ctx):
                 kinds.add("len(payload)")
             elif lf.kind == "param" and lf.data == 1 and not lf.path:
                 kinds.add("type")
+            elif lf.kind == "param" and lf.data == 2 and not lf.path:
+                kinds.add("payload")
             else:
                 kinds.add("other:" + leaf_s(pb, lf))
-    want = {"prefix", "separator", "len(type)", "type", "len(payload)"}
-    ctx.inst("C20/D1", "header fields", kinds == want, "header is formatted from %s (expected %s); prefix %r separator %r" % (sorted(kinds), sorted(want), prefix_const, sep_const), pack["at"])
+        return kinds
+    rl0 = pb.trace({"l": 0, "p": []})
+    parts_form = False
+    if len(rl0) == 1 and rl0[0].kind == "call" and callee_name(rl0[0].data[1]) in ("std::slice::concat", "core::slice::concat"):
+        arr0 = pb.trace(rl0[0].data[1]["args"][0])
+        if len(arr0) == 1 and arr0[0].kind == "agg" and arr0[0].data[2].get("agg") == "array" and len(arr0[0].data[2]["ops"]) > 2:
+            # the encoding written as one concatenation of parts: the ORDER of the parts is checked
+            parts_form = True
+            seq = []
+            for o in arr0[0].data[2]["ops"]:
+                k_ = classify(pb.trace(o))
+                seq.append(next(iter(k_)) if len(k_) == 1 else "mixed:" + ",".join(sorted(k_)))
+            want_seq = ["prefix", "separator", "len(type)", "separator", "type", "separator", "len(payload)", "separator", "payload"]
+            ctx.inst("C20/D1", "header fields", seq == want_seq, "parts concatenated: %s (expected %s)" % (seq, want_seq), pack["at"])
+            ctx.inst("C20/D1", "payload appended verbatim after the header", seq == want_seq and all(
+                not lf.via for lf in pb.trace(arr0[0].data[2]["ops"][-1])), "the last part is the payload parameter itself", pack["at"])
+    prefix_const, sep_const = consts["prefix"], consts["sep"]
+    if parts_form:
+        kinds = set()
+    else:
+        args = []
+        for i, t in pb.calls():
+            if (callee_name(t) or "").startswith("core::fmt::rt::Argument::new_"):
+                args.append(pb.trace(t["args"][0]))
+        kinds = set()
+        for lv in args:
+            kinds |= classify(lv)
+        prefix_const, sep_const = consts["prefix"], consts["sep"]
+        want = {"prefix", "separator", "len(type)", "type", "len(payload)"}
+        ctx.inst("C20/D1", "header fields", kinds == want, "header is formatted from %s (expected %s); prefix %r separator %r" % (sorted(kinds), sorted(want), prefix_const, sep_const), pack["at"])
     rl = pb.trace({"l": 0, "p": []})
     okc = len(rl) == 1 and rl[0].kind == "call" and callee_name(rl[0].data[1]) in ("std::slice::concat", "core::slice::concat")
     detail = "result <- {%s}" % ", ".join(leaf_s(pb, l) for l in rl)
@@ -115,7 +142,8 @@ def run(ctx):
                 root_ids(pb, mt["args"][1]) == frozenset([("param", 2, ())]) and all(not lf.via for lf in pb.trace(mt["args"][1]))
             okc = header_from_format and payload_direct
             detail = "header.into_bytes() extended once by the payload parameter itself: %s; the vector starts as the formatted header: %s" % (payload_direct, header_from_format)
-    ctx.inst("C20/D1", "payload appended verbatim after the header", okc, detail, pack["at"])
+    if not parts_form:
+        ctx.inst("C20/D1", "payload appended verbatim after the header", okc, detail, pack["at"])
     # ---------------- D2 unpack
     ub = ctx.region(None, policy=POLICY, key=unpack["key"], ps=True)
     cons_calls = ub.calls_named(LEN_PARSER["name"]) if LEN_PARSER["name"] else []
